@@ -145,4 +145,4 @@ def shrink(req):
     extra = [t for t in toks[1:] if not (t[0] == "T" and t[1:2].isdigit())]
     for s2 in songgen.shrink_song(song):
         if any(k < 16 for k in s2):
-            yield " ".join(["convwf"] + extra + [songgen.render(s2)])
+            yield " ".join([toks[0]] + extra + [songgen.render(s2)])
